@@ -205,11 +205,7 @@ func (cs *ContractSet) ParseContractFile(path, pkgPath string) error {
 				props = strings.Split(rest[1:j], ",")
 				rest = strings.TrimSpace(rest[j+1:])
 			}
-			c, err := mkClause(rest)
-			if err != nil {
-				return err
-			}
-			cs.Consts = append(cs.Consts, &ConstCheck{Pkg: pkgPath, Props: props, Clause: c})
+			cs.Consts = append(cs.Consts, &ConstCheck{Pkg: pkgPath, Props: props, Clause: &Clause{Text: rest, Where: where}})
 			cur = nil
 		default:
 			if cur == nil {
